@@ -170,6 +170,8 @@ fn cases() -> Vec<Vec<(&'static str, &'static str)>> {
         vec![("main.s", "main:\n    jal ra, helper\n    li t4, 9\n    li a7, 10\n    ecall\n.include \"lib.s\"\n"), ("lib.s", "helper:\n    li t0, 1\n    li s2, 2\n    ret\n")],
         vec![("main.s", "main:\n    .include \"missing.s\"\n    li t0, 1\n    li a7, 10\n    ecall\n")],
         vec![("main.s", "    li t0, 1\nmain:\n    addi x0, t0, 1\n    li a7, 10\n    ecall\n    li t1, 2\n")],
+        vec![("main.s", "main:\n    j nowhere\n    j elsewhere\n    j third\n    li a7, 10\n    ecall\n")],
+        vec![("main.s", "main:\n    addi a0, a0, foo:\n    li a7, 10\n    ecall\n")],
         vec![("main.s", "main:\n    li a7, 77\n    ecall\n    addi sp, sp, 4\n    sw a0, 0(sp)\n    li a7, 10\n    ecall\n")],
     ]
 }
